@@ -16,6 +16,14 @@ PY = "/venv/bin/python"
 GUARD = "BEYOND_VERIF"
 
 
+class LibraryRaised(Exception):
+    """A harness died on an exception raised inside the library under test (unexpected there): reported as a violation."""
+
+    def __init__(self, script, error, where, tail):
+        super().__init__(f"{script}: {error} at {where}")
+        self.script, self.error, self.where, self.tail = script, error, where, tail
+
+
 class MachineryFailure(Exception):
     pass
 
@@ -92,6 +100,13 @@ class Ctx:
         proc = subprocess.run([PY, os.path.join(ROOT, "harness", script), inp, outp], env=penv,
                               capture_output=True, text=True, timeout=timeout, cwd=self.scratch)
         if proc.returncode != 0 or not os.path.exists(outp):
+            # an exception that comes OUT OF THE LIBRARY (innermost frame under the tree being checked) at a place where the harness
+            # expects none is a finding about the library, not a failure of the machinery
+            import re as _re
+            frames = _re.findall(r'File "([^"]+)", line (\d+), in (\S+)', proc.stderr)
+            last = proc.stderr.strip().splitlines()[-1] if proc.stderr.strip() else ""
+            if frames and os.path.realpath(frames[-1][0]).startswith(os.path.realpath(REPO) + os.sep):
+                raise LibraryRaised(script, last[:300], f"{frames[-1][0]}:{frames[-1][1]} in {frames[-1][2]}", proc.stderr[-2500:])
             raise MachineryFailure(f"harness {script} failed rc={proc.returncode}\n{proc.stdout[-3000:]}\n{proc.stderr[-6000:]}")
         with open(outp) as fh:
             return json.load(fh)
